@@ -12,6 +12,33 @@ fn main() {
     if args.len() < 2 {
         usage();
     }
+    if args[1] == "__c15-baseline" {
+        // child side of C15's fresh-process phase
+        install_panic_hook();
+        let seed = args.get(2).and_then(|s| s.parse().ok()).unwrap_or(0);
+        let order = args.get(3).and_then(|s| s.parse().ok()).unwrap_or(0);
+        vcheck::props::c15::child_baseline(seed, order);
+        return;
+    }
+    if args[1] == "probe" {
+        // vcheck probe <file>...: is the text accepted by the parser, and what does each detector report
+        install_panic_hook();
+        for f in &args[2..] {
+            let text = std::fs::read_to_string(f).unwrap_or_default();
+            let ok = vcheck::parse(&text).is_some();
+            println!("{f}: parser-accepted={ok}");
+            if ok {
+                for p in vcheck::patterns::all() {
+                    match catch(|| p.analyze(&text, 0)) {
+                        Ok(l) if l.is_empty() => {}
+                        Ok(l) => println!("  {:<34} {:?}", p.name, l),
+                        Err(site) => println!("  {:<34} PANIC {site}", p.name),
+                    }
+                }
+            }
+        }
+        return;
+    }
     let prop = args[1].clone();
     let mut tier = match std::env::var("VERIF_TIER").as_deref() {
         Ok("thorough") => Tier::Thorough,
